@@ -31,8 +31,14 @@ OPTS = [
     "use_annotated",
     "field_constraints",
     "snake_case_field",
+    # spelling of the annotation only (the model is independent of them; a union-typed member's
+    # null admission is decided differently under the union operator, see Model/FieldUnion.lean)
+    "use_union_operator",
+    "use_standard_collections",
+    "use_generic_container_types",
 ]
-OPT_TAG = ["sn", "ud", "fo", "sd", "kw", "an", "fc", "sc"]
+OPT_TAG = ["sn", "ud", "fo", "sd", "kw", "an", "fc", "sc", "uo", "us", "ug"]
+SPELLING_TAGS = ["uo", "us", "ug"]
 VIAS = ["own", "sibling", "owner"]  # where the `required` entry is written
 NAMES = ["plain", "alias", "keyword", "camel"]
 JSON_NAME = {"plain": "n", "alias": "foo-bar", "keyword": "class", "camel": "fooBar"}
@@ -76,6 +82,28 @@ CONSTRAINT = {"string": {"maxLength": 40}, "integer": {"maximum": 1000}, "number
 PRESENT = {"string": "xy", "integer": 3, "number": 3, "boolean": True, "array": [], "object": {}}
 
 
+# ---- union-typed members: `anyOf` / `oneOf` over scalar alternatives ("the fourth way a schema admits null")
+ATOM_JT = {"a": "string", "b": "integer", "c": "boolean"}
+ALT_KINDS = ["p", "n", "f"]  # plain {"type": T} / type list [T, "null"] / OpenAPI {"type": T, "nullable": true}; "z" = {"type": "null"}
+UNION_DFLT = {"none": None, "null": None, "str": "a", "truthy": "b", "falsy": "b"}  # default class -> atom it needs
+UNION_DEFAULT_VALUE = {"str": "abc", "truthy": 7, "falsy": 0}
+
+
+def is_union(v: dict) -> bool:
+    return v.get("ty") == "union"
+
+
+def alt_schema(alt: str) -> dict:
+    if alt == "z":
+        return {"type": "null"}
+    jt = ATOM_JT[alt[1]]
+    return {"p": {"type": jt}, "n": {"type": [jt, "null"]}, "f": {"type": jt, "nullable": True}}[alt[0]]
+
+
+def alt_admits_null(alt: str) -> bool:
+    return alt[0] in "nfz"
+
+
 def ty_of(dflt: str) -> list[str]:
     if dflt in ("none", "null"):
         return TYS
@@ -86,6 +114,18 @@ def ty_of(dflt: str) -> list[str]:
 
 def valid(v: dict) -> bool:
     """Pruning by validity of the abstract vector."""
+    if is_union(v):
+        alts = v.get("alts") or []
+        if not alts or v["constr"] or v["dflt"] not in UNION_DFLT or all(a == "z" for a in alts):
+            return False  # a member that can only be null (`n: None`) is outside the space
+        need = UNION_DFLT[v["dflt"]]
+        if need and not any(a != "z" and a[1] == need for a in alts):
+            return False  # the default value must be of the type of some alternative
+        if any(a[0] == "f" for a in alts) and not v["nullsrc"].startswith("oa"):
+            return False  # `nullable` is an OpenAPI keyword
+        if v["opts"]["an"] and not v["opts"]["fc"]:
+            return False
+        return v["via"] == "own" or v["inreq"]
     if v["ty"] not in ty_of(v["dflt"]):
         return False
     if v["constr"] and v["ty"] == "object":
@@ -101,6 +141,15 @@ def realise(v: dict) -> dict:
     """The member schema + facts about it for an abstract vector (deterministic in v and v['variant'])."""
     var = v.get("variant", 0)
     d = v["dflt"]
+    if is_union(v):
+        alts = v["alts"]
+        member = {v.get("comb", "anyOf"): [alt_schema(a) for a in alts]}
+        dv = UNION_DEFAULT_VALUE.get(d)
+        if d != "none":
+            member["default"] = dv
+        typed = [a for a in alts if a != "z"]
+        jt = ATOM_JT[typed[0][1]] if typed else "null"
+        return {"member": member, "jtype": jt, "default": dv, "present": PRESENT.get(jt)}
     if d in ("none", "null"):
         jt, extra = BASE[v["ty"]][var % len(BASE[v["ty"]])]
         dv = None
@@ -125,7 +174,8 @@ def realise(v: dict) -> dict:
     return {"member": member, "jtype": jt, "default": dv, "present": PRESENT[jt]}
 
 
-def build_doc(v: dict) -> tuple[dict, str]:
+def build_obj(v: dict) -> dict:
+    """the object schema declaring the one member of vector `v`"""
     r = realise(v)
     name = JSON_NAME[v["name"]]
     obj: dict = {"type": "object", "properties": {name: r["member"]}}
@@ -136,10 +186,15 @@ def build_doc(v: dict) -> tuple[dict, str]:
         obj = {"allOf": [obj, {"required": [name]}]}
     else:  # `required` on the schema that owns the allOf
         obj = {"allOf": [obj], "required": [name]}
+    return obj
+
+
+def build_doc(v: dict) -> tuple[dict, str]:
+    obj = build_obj(v)
     if v["nullsrc"].startswith("oa"):
         return (
             {
-                "openapi": "3.0.3" if v["nullsrc"] != "oa-typelist" else "3.1.0",
+                "openapi": "3.0.3" if v["nullsrc"] != "oa-typelist" and not any(a[0] in "nz" for a in v.get("alts") or []) else "3.1.0",
                 "info": {"title": "t", "version": "1"},
                 "paths": {},
                 "components": {"schemas": {"M": obj}},
@@ -155,8 +210,9 @@ def opts_of(v: dict) -> dict:
 
 def vec_key(v: dict) -> str:
     bits = "".join("1" if v["opts"][t] else "0" for t in OPT_TAG)
+    ty = v["ty"] if not is_union(v) else f"{v.get('comb', 'anyOf')}[{'.'.join(v['alts'])}]"
     return (
-        f"{KIND_TAG[v['kind']]} {v['nullsrc']} {'req' if v['inreq'] else 'opt'} {v['dflt']} {v['ty']} "
+        f"{KIND_TAG[v['kind']]} {v['nullsrc']} {'req' if v['inreq'] else 'opt'} {v['dflt']} {ty} "
         f"{'con' if v['constr'] else 'nocon'} {bits} {v['via']} {v['name']}"
     )
 
@@ -193,13 +249,36 @@ def _cls(val, default, has_default: bool) -> str:
     return "other"
 
 
-def observe(code: str, default, has_default: bool, pyname: str = "n", jsonname: str = "n") -> dict | None:
-    """Shape of the member of class `M` in the emitted module, or None when there is none.
+def ann_admits_none(a) -> bool:
+    """Does the written annotation (an AST) admit None? `Optional[…]`, `None`, `Any`, and — at any
+    depth of `Union[…]` / `X | Y` nesting — an alternative that does (`Union[str, Optional[str]]`)."""
+    if isinstance(a, ast.Constant):
+        return a.value is None
+    if isinstance(a, ast.Name):
+        return a.id == "Any"
+    if isinstance(a, ast.Attribute):
+        return a.attr == "Any"
+    if isinstance(a, ast.BinOp) and isinstance(a.op, ast.BitOr):
+        return ann_admits_none(a.left) or ann_admits_none(a.right)
+    if isinstance(a, ast.Subscript):
+        head = _name(a.value)
+        elts = a.slice.elts if isinstance(a.slice, ast.Tuple) else [a.slice]
+        if head == "Optional":
+            return True
+        if head == "Union":
+            return any(ann_admits_none(e) for e in elts)
+        if head in ("Annotated", "NotRequired", "Required"):
+            return ann_admits_none(elts[0])
+    return False
+
+
+def observe(code: str, default, has_default: bool, pyname: str = "n", jsonname: str = "n", cls: str = "M") -> dict | None:
+    """Shape of the member of class `cls` in the emitted module, or None when there is none.
     The member is `pyname: …` in a class body, or the entry `'jsonname': …` of a functional-syntax TypedDict."""
     tree = ast.parse(code)
     node = None
     for c in tree.body:
-        if isinstance(c, ast.ClassDef) and c.name == "M":
+        if isinstance(c, ast.ClassDef) and c.name == cls:
             for s in c.body:
                 if isinstance(s, ast.AnnAssign) and isinstance(s.target, ast.Name) and s.target.id == pyname:
                     node = s
@@ -207,7 +286,7 @@ def observe(code: str, default, has_default: bool, pyname: str = "n", jsonname: 
             isinstance(c, ast.Assign)
             and len(c.targets) == 1
             and isinstance(c.targets[0], ast.Name)
-            and c.targets[0].id == "M"
+            and c.targets[0].id == cls
             and isinstance(c.value, ast.Call)
             and _name(c.value.func) == "TypedDict"
             and len(c.value.args) == 2
@@ -281,7 +360,10 @@ def observe(code: str, default, has_default: bool, pyname: str = "n", jsonname: 
                     parts.append(x)
             if any(isinstance(e, ast.Constant) and e.value is None for e in parts):
                 sh["opt"] = 1
-            break
+            rest = [e for e in parts if not (isinstance(e, ast.Constant) and e.value is None)]
+            if len(rest) != 1:
+                break
+            a = rest[0]  # `X | None` is the union-operator spelling of Optional[X]: keep peeling X
         else:
             break
     if isinstance(a, ast.Call):  # constr(max_length=…)
@@ -290,6 +372,8 @@ def observe(code: str, default, has_default: bool, pyname: str = "n", jsonname: 
                 sh["con"] = 1
     if isinstance(a, ast.Name) and a.id == "Any" or isinstance(a, ast.Constant) and a.value is None:
         sh["opt"] = 1
+    if ann_admits_none(node.annotation):
+        sh["opt"] = 1  # a None inside a written union: `Union[str, Optional[str]]`, `str | str | None`
     val = node.value
     if val is None:
         sh["asg"] = "none"
@@ -334,12 +418,17 @@ def _omitted_class(val, real: dict, has_default: bool) -> str:
     return "other"
 
 
-def semantics(code: str, v: dict, real: dict, sh: dict | None) -> dict:
+def semantics(code: str, v: dict, real: dict, sh: dict | None, cls: str = "M", names: tuple[str, str] | None = None,
+              others: list[tuple[str, str, object]] | None = None) -> dict:
     """What the emitted member means at run time: loads, must(supply), null(accepted),
-    omitted ∈ rejected|none|absent|dflt|other, shared (mutable default shared between instances)."""
+    omitted ∈ rejected|none|absent|dflt|other, shared (mutable default shared between instances).
+    `names` = (JSON name, Python name) of the member; `others` = (JSON name, Python name, a valid
+    value) of the other members of the same class, which are always supplied."""
     kind = v["kind"]
     has_default = v["dflt"] != "none"
-    jn, pn = JSON_NAME[v["name"]], py_name(v)
+    jn, pn = names or (JSON_NAME[v["name"]], py_name(v))
+    base_json = {j: val for j, _, val in others or []}
+    base_py = {p: val for _, p, val in others or []}
     out: dict = {"loads": "ok", "must": None, "null": None, "omitted": None, "shared": False, "present": True}
     if kind == "msgspec.Struct":
         # msgspec is not installed: authored reading of the AST. A Struct member without `=` must be
@@ -353,9 +442,9 @@ def semantics(code: str, v: dict, real: dict, sh: dict | None) -> dict:
             out["must"], out["omitted"] = True, "rejected"
         else:
             out["must"] = False
-            cls = asg.split(":")[-1].removeprefix("kw")
-            out["omitted"] = cls if cls in ("none", "dflt") else "other"
-            if asg.startswith(("lit:", "field:kw")) and cls == "dflt" and isinstance(real["default"], (list, dict)) and real["default"]:
+            c = asg.split(":")[-1].removeprefix("kw")
+            out["omitted"] = c if c in ("none", "dflt") else "other"
+            if asg.startswith(("lit:", "field:kw")) and c == "dflt" and isinstance(real["default"], (list, dict)) and real["default"]:
                 out["loads"] = "error:msgspec-nonempty-mutable-default"
         return out
     try:
@@ -363,43 +452,44 @@ def semantics(code: str, v: dict, real: dict, sh: dict | None) -> dict:
     except BaseException as e:  # noqa: BLE001
         return {**out, "loads": f"error:{type(e).__name__}"}
     try:
-        M = mod.M
+        M = getattr(mod, cls)
         if kind in ("pydantic.BaseModel", "pydantic_v2.BaseModel"):
             parse = M.model_validate if kind == "pydantic_v2.BaseModel" else M.parse_obj
             try:
-                inst = parse({})
+                inst = parse(dict(base_json))
                 out["must"] = False
                 val = getattr(inst, pn)
                 out["omitted"] = _omitted_class(val, real, has_default)
                 if isinstance(val, (list, dict)):
-                    other = parse({})
-                    out["shared"] = val is getattr(other, pn) or getattr(M(), pn) is getattr(M(), pn)
+                    other = parse(dict(base_json))
+                    out["shared"] = val is getattr(other, pn) or (not others and getattr(M(), pn) is getattr(M(), pn))
             except Exception as e:  # noqa: BLE001
                 if type(e).__name__ != "ValidationError":
                     raise
                 out["must"], out["omitted"] = True, "rejected"
             try:
-                out["null"] = getattr(parse({jn: None}), pn) is None
+                out["null"] = getattr(parse({**base_json, jn: None}), pn) is None
             except Exception as e:  # noqa: BLE001
                 if type(e).__name__ != "ValidationError":
                     raise
                 out["null"] = False
-            try:
-                parse({jn: real["present"]})
-            except Exception:  # noqa: BLE001
-                out["present"] = False
+            if real["present"] is not None:
+                try:
+                    parse({**base_json, jn: real["present"]})
+                except Exception:  # noqa: BLE001
+                    out["present"] = False
         elif kind == "dataclasses.dataclass":
             f = {x.name: x for x in dataclasses.fields(M)}[pn]
             out["must"] = f.default is dataclasses.MISSING and f.default_factory is dataclasses.MISSING
             if out["must"]:
                 out["omitted"] = "rejected"
                 try:
-                    M()
+                    M(**base_py)
                     out["omitted"] = "other"
                 except TypeError:
                     pass
             else:
-                a, b = M(), M()
+                a, b = M(**base_py), M(**base_py)
                 out["omitted"] = _omitted_class(getattr(a, pn), real, has_default)
                 out["shared"] = isinstance(getattr(a, pn), (list, dict)) and getattr(a, pn) is getattr(b, pn)
             out["null"] = _admits_none(typing.get_type_hints(M, include_extras=True)[pn])
@@ -422,9 +512,12 @@ def semantics(code: str, v: dict, real: dict, sh: dict | None) -> dict:
     return out
 
 
-def member_line(code: str, pyname: str = "n", jsonname: str = "n") -> str:
+def member_line(code: str, pyname: str = "n", jsonname: str = "n", cls: str | None = None) -> str:
+    inside = cls is None
     for ln in code.splitlines():
-        if ln.strip().startswith((pyname + ":", repr(jsonname) + ":")):
+        if cls is not None and ln and not ln[0].isspace():
+            inside = ln.startswith((f"class {cls}(", f"class {cls}:", f"{cls} = "))
+        if inside and ln.strip().startswith((pyname + ":", repr(jsonname) + ":")):
             return ln.strip()
     return ""
 
@@ -452,14 +545,17 @@ def _install_capture() -> None:
 CONSTRAINT_ATTRS = ("max_length", "le", "max_items", "maxLength", "maximum", "maxItems")
 
 
-def ir_of_captured() -> str | None:
-    """the parser's field record for member `n` of model `M`, in the driver's `irStr` form"""
+def ir_of_captured(cls: str = "M", pyname: str | None = None) -> str | None:
+    """the parser's field record for a member of model `cls` (the first one, or the one named
+    `pyname`), in the driver's `irStr` form"""
     p = _captured.get("parser")
     if p is None:
         return None
     for m in p.results:
-        if getattr(m, "class_name", None) == "M" and m.fields:
-            f = m.fields[0]
+        if getattr(m, "class_name", None) == cls and m.fields:
+            f = m.fields[0] if pyname is None else next((x for x in m.fields if x.name == pyname), None)
+            if f is None:
+                return None
             c = f.constraints
             if c is None:
                 cons = "none"
@@ -534,6 +630,13 @@ def mk_vec(kind, ns, inreq, d, ty, con, bits, variant=0, via="own", name="plain"
                      "opts": dict(zip(OPT_TAG, [bool(b) for b in bits])), "variant": variant, "via": via, "name": name})
 
 
+def mk_uvec(kind, dialect, inreq, d, alts, bits, comb="anyOf", variant=0, via="own", name="plain") -> dict:
+    """a union-typed member: `alts` like ["pa", "na", "z"]; `bits` over OPT_TAG (dict or list)"""
+    opts = dict(bits) if isinstance(bits, dict) else dict(zip(OPT_TAG, [bool(b) for b in bits]))
+    return norm_vec({"kind": kind, "nullsrc": f"{dialect}-no", "inreq": bool(inreq), "dflt": d, "ty": "union", "constr": False,
+                     "alts": list(alts), "comb": comb, "opts": opts, "variant": variant, "via": via, "name": name})
+
+
 def all_vectors(kinds=None) -> list[dict]:
     out = []
     for kind in kinds or KINDS:
@@ -574,20 +677,26 @@ MODEL_OPTS = ["sn", "ud", "fo", "sd", "an", "fc"]  # use_default_kwarg is spelli
 
 def driver_request(v: dict) -> str:
     bits = "".join("1" if v["opts"][t] else "0" for t in MODEL_OPTS)
+    if is_union(v):
+        return (
+            f"field.renderu {KIND_TAG[v['kind']]} {int(v['inreq'])} {v['dflt']} {bits} {v['via']} {v['name']} "
+            f"{int(v['opts']['sc'])} {int(v['opts']['uo'])} {'.'.join(v['alts'])}"
+        )
     return (
         f"field.render {KIND_TAG[v['kind']]} {NULLMODE[v['nullsrc']]} {int(v['inreq'])} {v['dflt']} {v['ty']} "
-        f"{int(v['constr'])} {bits} {v['via']} {v['name']} {int(v['opts']['sc'])}"
+        f"{int(v['constr'])} {bits} {v['via']} {v['name']} {int(v['opts']['sc'])} {int(v['opts']['ug'])}"
     )
 
 
 def parse_reply(rep: str) -> dict | None:
     if not rep.startswith("ok "):
         return None
-    ir, shape, sem = rep[3:].split(" | ")
+    ir, shape, sem, *rest = rep[3:].split(" | ")
     kv = dict(x.split("=", 1) for x in sem.split())
     return {
         "ir": ir,
         "shape": shape,
+        "union": dict(x.split("=", 1) for x in rest[0].split()) if rest else None,
         "sem": {
             "loads": kv["loads"] == "1",
             "must": kv["must"] == "1",
@@ -617,20 +726,30 @@ def normalise_kw(shape: str) -> tuple[str, bool]:
 
 
 # ---------------------------------------------------------------- the property's oracle: clauses and classification
+def clause_N(v: dict) -> bool:
+    """the member's schema admits null (through its type list, the OpenAPI keyword, or an alternative)"""
+    if is_union(v):
+        return any(alt_admits_null(a) for a in v["alts"])
+    return NULLMODE[v["nullsrc"]] != "no"
+
+
 def clause_failures(v: dict, sem: dict, shape: str, ir_required: bool | None) -> list[dict]:
     """Clauses of C05 that fail for vector `v` given the member's semantics `sem` (canonical form).
     Returns classification dicts {clause, mechanism}; the mechanism is read off the vector, the
     rendered shape and the parser's `required`, never off the Lean model."""
     o = v["opts"]
     R, D = v["inreq"], v["dflt"] != "none"
-    N = NULLMODE[v["nullsrc"]] != "no"
+    N = clause_N(v)
     omittable = (not R) or o["fo"] or (o["ud"] and D)
     none_default = v["dflt"] in ("none", "null")
     asg = shape.split(" asg=")[-1] if " asg=" in shape else ""
     has_rendered_default = asg.startswith(("lit:", "Field:none", "Field:dflt", "Field:kw", "field:factory", "field:kw"))
     out = []
     if not sem["loads"]:
-        out.append({"clause": "class_creation", "mechanism": sem.get("loads_error", "exec_error")})
+        mech = sem.get("loads_error", "exec_error")
+        if v["kind"] == "pydantic.BaseModel" and mech == "ValueError" and o["ug"] and v["ty"] == "array" and v["constr"]:
+            mech = "v1_sequence_max_items_unenforced"  # pydantic 1 refuses `Sequence[…]` with max_items
+        out.append({"clause": "class_creation", "mechanism": mech})
         if v["kind"] != "msgspec.Struct":
             return out  # the class does not exist: nothing else can be observed (msgspec is read statically)
     if not omittable:
@@ -659,7 +778,11 @@ def clause_failures(v: dict, sem: dict, shape: str, ir_required: bool | None) ->
             if sem["shared"]:
                 out.append({"clause": "mutable_default_not_shared", "mechanism": "shared_object"})
     if N and not sem["null"]:
-        if v["nullsrc"] == "oa-flag" and not o["sn"]:
+        if is_union(v):
+            # null is admitted through an alternative of the anyOf / oneOf
+            only_flag = all(a[0] == "f" for a in v["alts"] if alt_admits_null(a))
+            mech = "openapi_nullable_without_strict" if only_flag and not o["sn"] else "union_alternative_null_lost"
+        elif v["nullsrc"] == "oa-flag" and not o["sn"]:
             mech = "openapi_nullable_without_strict"
         elif v["nullsrc"].endswith("typelist") and o["sn"] and v["ty"] == "array":
             mech = "strict_nullable_overrides_type_list"
@@ -673,14 +796,17 @@ def clause_failures(v: dict, sem: dict, shape: str, ir_required: bool | None) ->
     return out
 
 
-def evaluate(ck: Check, camps: dict, v: dict, r: dict, model: dict | None, record: bool = True) -> list[dict]:
+def evaluate(ck: Check, camps: dict, v: dict, r: dict, model: dict | None, record: bool = True, extra_inp: dict | None = None) -> list[dict]:
     """Correspondence (ir / shape / sem) and the property oracle for one vector. Returns the
-    classified oracle failures."""
+    classified oracle failures. `extra_inp`: what else is needed to re-run the case (the group of
+    members the vector was generated together with)."""
     v = norm_vec(v)
     key = vec_key(v) + f" var{v.get('variant', 0)}"
     inp = {"vector": v, "key": key, "member": r.get("member"), "line": r.get("line")}
     if r.get("document"):
         inp["document"] = r["document"]
+    if extra_inp:
+        inp.update(extra_inp)
     ci, cr, cs, co = camps["ir"], camps["render"], camps["sem"], camps["oracle"]
     co.evaluations += 1
     co.hit(f"kind:{KIND_TAG[v['kind']]}")
@@ -692,6 +818,11 @@ def evaluate(ck: Check, camps: dict, v: dict, r: dict, model: dict | None, recor
             co.hit(f"opt:{t}")
     co.hit(f"via:{v['via']}")
     co.hit(f"name:{v['name']}")
+    if is_union(v):
+        co.hit(f"union:{len(v['alts'])}-alternatives")
+        co.hit("union:" + ("null-through-alternative" if any(alt_admits_null(a) for a in v["alts"]) else "no-null"))
+        if len({a[1:] for a in v["alts"] if a != "z"}) < len([a for a in v["alts"] if a != "z"]):
+            co.hit("union:same-type-repeated")
     if "error" in r:
         if r.get("hang"):
             co.hit("hang(C01)")
@@ -981,35 +1112,82 @@ def search_exhaustive(ck: Check) -> None:
             return
 
 
+def search_siblings(ck: Check) -> None:
+    """Targeted search, first stage: what the generator makes of a member may have come to depend on
+    the OTHER members of the run (state shared through the type manager, the resolver, the field
+    objects). Complete small scope: every ordered pair of member archetypes of one primitive type,
+    each primitive type, both layouts, both dialects, with and without strict-nullable, every kind."""
+    from . import c05_groups
+
+    camps = {k: ck.campaign("search (siblings): " + k) for k in ("ir", "render", "sem", "oracle", "group")}
+    groups = c05_groups.pair_block(variants=(0, 1, 2))
+    for i in range(0, len(groups), 2500):
+        c05_groups.run_batch(ck, camps, groups[i : i + 2500])
+        if ck.failures:
+            return
+
+
+def search_union(ck: Check) -> None:
+    """Targeted search, second stage: union-typed members — all lists of alternatives of the block,
+    both spellings, every kind."""
+    from . import c05_union
+
+    camps = {k: ck.campaign("search (union-typed members): " + k) for k in ("ir", "render", "sem", "oracle")}
+    run_batch(ck, camps, c05_union.core_block())
+    vs = [] if ck.failures else c05_union.block(None)
+    for i in range(0, len(vs), 3000):
+        run_batch(ck, camps, vs[i : i + 3000])
+        if ck.failures:
+            return
+
+
 def run(ck: Check) -> None:
+    from . import c05_groups, c05_union
+
     quick = ck.tier == "quick"
     ck.translate("FieldTemplates", field_templates.generate())
     ck.prove()
     ck.assumptions += [
-        "abstract space: one member of scalar / array-of-scalar / dict-of-scalar type; $ref-typed members, const, default_factory extras, aliases and the union-operator spelling are outside it",
+        "abstract space: one member of scalar / array-of-scalar / dict-of-scalar type, or an anyOf / oneOf of scalar alternatives ({type: T}, {type: [T, null]}, OpenAPI {type: T, nullable: true}, {type: null}; at least one alternative has a type); $ref-typed members, const, default_factory extras and unions over containers or references are outside it",
         "the default VALUE is abstracted to its class (none given / null / falsy / truthy / string / empty or non-empty list / empty or non-empty dict); equality of the materialised value is checked by the end-to-end oracle on concrete realisations, not by a theorem",
         "Sem (what a rendered member means in pydantic 1, pydantic 2, dataclasses, TypedDict, msgspec) is authored; validated in this run against the exec'd classes except for msgspec, which is not installed (read statically from the AST)",
         "TypedDict requiredness is read from the resolved annotation (NotRequired[...]), not from __required_keys__, because the emitted module uses `from __future__ import annotations` (PEP 655 limitation)",
         "use_default_kwarg only changes the spelling Field(x) → Field(default=x); checked syntactically, not part of the Lean model",
+        "use_union_operator / use_standard_collections / use_generic_container_types are drawn at random by the end-to-end campaigns and are not part of the scalar model (it predicts the same member whatever they are; the one exception, pydantic 1 refusing Sequence[...] with max_items, is Model.Field.semG); for union-typed members use_union_operator is a model input (Model/FieldUnion.lean)",
+        "type-hint level model (Model/FieldUnion.lean): hints are structured (parts of `X | Y`, trees of Optional[...]/Union[...]) over bracket-free type names; a type with an empty hint as an alternative of a union and the optional-Any rewriting of DataType.__init__ are outside its domain (character-level scanning of hints is C13's model)",
+        "cross-member independence is tested, not proved: the model has no state shared between members, so every sibling effect of the real code shows up as a model/code disagreement or as an oracle failure the model does not predict",
     ]
     camps = make_campaigns(ck)
+    camps["group"] = ck.campaign("cross-member independence: 2–3 members generated in one run (same class / one per schema, every order); each member vs the model's prediction from its own vector, and the property oracle per member")
     run_batch(ck, camps, corpus())
+    c05_union.campaign_unionhint(ck, 1500 if quick else 12000, exhaustive=not quick)
+    run_batch(ck, camps, c05_union.core_block())
     if quick:
-        run_batch(ck, camps, stratified(ck, 1500))
+        run_batch(ck, camps, stratified(ck, 1500) + c05_union.stratified(ck, 500))
     else:
         vs = all_vectors() + renaming_vectors()
         rng = ck.rng.fork("variants")
         for v in vs:
             v["variant"] = rng.below(6)
+            for t in SPELLING_TAGS:  # not enumerated: drawn per vector
+                v["opts"][t] = rng.chance(1, 4)
+        vs += c05_union.block(ck)
         for i in range(0, len(vs), 20000):
             run_batch(ck, camps, vs[i : i + 20000])
+    pairs = c05_groups.pair_block(variants=(0,) if quick else (0, 1, 2))
+    if quick:
+        prng = ck.rng.fork("pairs")
+        pairs = [g for g in pairs if prng.chance(1, 4)]
+    c05_groups.run_batch(ck, camps, pairs + c05_groups.random_groups(ck, 500 if quick else 3000))
     campaign_order(ck, 200 if quick else 4000)
     ck.notes["space"] = {
         "base_block": "kind x dialect/null-source x required x default class x type x constraint x 7 options (own required list, plain name): 105600 valid vectors",
         "renaming_block": f"listed members x where listed (3) x name kind (4) x snake-case-field x {{strict-nullable, use-default, force-optional}}: {len(renaming_vectors()) if not quick else 124800} vectors",
-        "tier_covers": "both blocks exhaustively" if not quick else "stratified sample over the product of all dimensions + corpus",
+        "union_block": "union-typed members: core (all lists of <= 2 alternatives over {T, [T,null], null} x kind x spelling x required) always; thorough adds kind x lists of alternatives (<= 2 over two types and null, 3 over {T,[T,null],null,U}, OpenAPI lists with a nullable:true alternative) x spelling x required x {no default, null default} x strict-nullable with the other dimensions drawn",
+        "sibling_block": "every ordered pair of scalar member archetypes (null source x required/optional/default/null default) of one primitive type x dialect x strict-nullable x kind x layout (same class / one per schema); quick: a quarter of it, string only; plus random groups of 2-3 members (scalar, array, dict, union-typed) in all orders",
+        "tier_covers": "all blocks exhaustively (spelling options, realisations and the non-enumerated dimensions of the union block drawn per vector)" if not quick else "stratified sample over the product of all dimensions + corpus + union core block + a quarter of the sibling block",
     }
-    ck.search_hooks.append(search_exhaustive)
+    ck.search_hooks += [search_siblings, search_union, search_exhaustive]
     known_findings(ck)
 
 
@@ -1022,6 +1200,30 @@ def replay(ck: Check, path: str) -> int:
         bad = "members" in r and (bad_order([h for _, h in r["members"]]) or r["loads"] != "ok")
         print("REPLAY-FAILS: member order / class creation" if bad else "replay: the oracle does not fail on this input")
         return 1 if bad else 0
+    if inp.get("group"):
+        from . import c05_groups
+
+        g = inp["group"]
+        camps = make_campaigns(ck)
+        camps["group"] = ck.campaign("group")
+        res = c05_groups.run_group(g)
+        print("group:", c05_groups.group_key(g))
+        print("document:", json.dumps(res.get("document")))
+        if "error" in res:
+            print("REPLAY-FAILS: generation:", res["error"])
+            return 1
+        vs = [norm_vec(v) for v in g["vectors"]]
+        models = [parse_reply(x) for x in ck.driver.run([driver_request(v) for v in vs])]
+        for r in res["members"]:
+            print("emitted:", r.get("line"), "| semantics:", r.get("sem"))
+        c05_groups.evaluate_group(ck, camps, g, res, models)
+        for f in ck.failures:
+            print("REPLAY-FAILS:", json.dumps(f.classification), f.observed[:300])
+        for d in ck.disagreements:
+            print("REPLAY-DISAGREES:", d.campaign[:40], "model:", d.model, "impl:", d.impl)
+        if not ck.failures:
+            print("replay: the oracle does not fail on this input" + (" beyond known findings" if ck.known_hits else ""))
+        return 1 if ck.failures else 0
     v = inp.get("vector")
     if not v:
         print("replay: no vector in the replay file")
